@@ -54,6 +54,10 @@ func (w wrapper) validateKID(kid string) error {
 	if !w.kidPattern.MatchString(kid) {
 		return fmt.Errorf("invalid key ID: %s", kid)
 	}
+	if kid == "." || kid == ".." {
+		// the pattern allows dots, but these two names address the parent of the key namespace in path-based backends
+		return fmt.Errorf("invalid key ID: %s", kid)
+	}
 	return nil
 }
 
